@@ -15,6 +15,7 @@ pub enum Pending {
     TryLock,
     Wake(usize),
     Await,
+    Barrier,
     Finished,
 }
 
@@ -350,7 +351,7 @@ impl Rt {
 
     pub fn enabled(st: &State, a: usize) -> bool {
         match &st.agents[a].pending {
-            Pending::NotBorn | Pending::Finished => false,
+            Pending::NotBorn | Pending::Finished | Pending::Barrier => false,
             Pending::CallStart | Pending::Op | Pending::TryLock => true,
             Pending::Lock(addr) => !st.locks.contains_key(addr),
             Pending::Wake(m) => st.woken.contains(&a) && !st.locks.contains_key(m),
